@@ -47,10 +47,19 @@ type vkPlug struct {
 	idx      int
 	mu       *sync.Mutex
 	prepared *time.Duration
+	last     *time.Duration // instant of the most recent Prepare of this interface (re-initialisations included)
 	w        func() time.Duration
 }
 
 func (p *vkPlug) Prepare(ifi *net.Interface) error {
+	// between the wrapped Prepare (which wires rtnetlink) and the assignments below a
+	// concurrent scrape would read the sandbox's own interfaces: a probe at this very
+	// instant is not judged
+	if p.last != nil {
+		p.mu.Lock()
+		*p.last = p.w()
+		p.mu.Unlock()
+	}
 	if err := p.Plugin.Prepare(ifi); err != nil {
 		return err
 	}
@@ -166,12 +175,14 @@ func c17Prop(t *testing.T, k *verifkit.Kit) func(c c17Case) error {
 			w := newSimWorld(nil)
 			var mu sync.Mutex
 			prepared := map[string]*time.Duration{}
+			lastPrep := map[string]*time.Duration{}
 			for i := range cfg.Interfaces {
 				ifi := &cfg.Interfaces[i]
-				p := time.Duration(-1)
+				p, lp := time.Duration(-1), time.Duration(-1)
 				prepared[ifi.Name] = &p
+				lastPrep[ifi.Name] = &lp
 				for j := range ifi.Plugins {
-					ifi.Plugins[j] = &vkPlug{Plugin: ifi.Plugins[j], st: &st, idx: i, mu: &mu, prepared: prepared[ifi.Name], w: w.now,
+					ifi.Plugins[j] = &vkPlug{Plugin: ifi.Plugins[j], st: &st, idx: i, mu: &mu, prepared: prepared[ifi.Name], last: lastPrep[ifi.Name], w: w.now,
 						cur: func() sysState { s, _ := c17StateAt(c, w.now()); return s }}
 				}
 				w.fwd[ifi.Name] = st.Fwd
@@ -298,6 +309,14 @@ func c17Prop(t *testing.T, k *verifkit.Kit) func(c c17Case) error {
 						h.ServeHTTP(rec, httptest.NewRequest("GET", "/debug/pprof/", nil))
 						p.PProf = rec.Code
 					}()
+					// a (re-)initialisation at the very instant of the probe, before or after it started
+					mu.Lock()
+					for n, v := range lastPrep {
+						if *v == p.At {
+							p.Prepared[n+"/ambiguous"] = true
+						}
+					}
+					mu.Unlock()
 					probes = append(probes, p)
 				}
 			}
@@ -484,10 +503,18 @@ func c17Prop(t *testing.T, k *verifkit.Kit) func(c c17Case) error {
 			for _, n := range vkConstNames {
 				want[n] = map[string]float64{}
 			}
-			dup := map[string]bool{}
+			// Two options with the same label identity (two RDNSS stanzas listing the same
+			// servers, a wildcard prefix that is also configured statically, ...) cannot both
+			// have a sample: one sample with the value of one of them is what a scrape can
+			// carry, and the scrape as a whole must still succeed (defect F19).
+			alt := map[string]map[string][]float64{}
 			put := func(series, key string, v float64) {
 				if _, ok := want[series][key]; ok {
-					dup[series] = true
+					if alt[series] == nil {
+						alt[series] = map[string][]float64{}
+					}
+					alt[series][key] = append(alt[series][key], v)
+					return
 				}
 				want[series][key] = v
 			}
@@ -538,10 +565,20 @@ func c17Prop(t *testing.T, k *verifkit.Kit) func(c c17Case) error {
 					}
 				}
 			}
+			if ref.Cfg.DebugSpec && debugCfg.Prometheus && p.Metrics != http.StatusOK {
+				return verifkit.Violf("C17/metrics-endpoint-fails", "probe at %v: every interface is initialised, yet GET /metrics -> %d\n%s", p.At, p.Metrics, text)
+			}
 			for _, series := range vkConstNames {
-				if dup[series] {
-					k.Unspecified("duplicate label identity in " + series)
-					continue
+				for key, vs := range alt[series] {
+					// which of the colliding options is reported is not prescribed
+					k.Class("duplicate-label-identity")
+					if got, ok := p.Scrape[series][key]; ok {
+						for _, v := range vs {
+							if got == v {
+								want[series][key] = v
+							}
+						}
+					}
 				}
 				if g, w := fmtSamples(p.Scrape[series]), fmtSamples(want[series]); g != w {
 					return verifkit.Violf("C17/metrics-differ:"+series, "probe at %v: %s\nwant %s\ngot  %s\n%s", p.At, series, w, g, text)
@@ -578,9 +615,10 @@ func c17Prop(t *testing.T, k *verifkit.Kit) func(c c17Case) error {
 				}
 			}
 		}
-		if promErr != nil && !strings.Contains(promErr.Error(), "collected before") && !strings.Contains(promErr.Error(), "duplicate") {
-			// a gather error for a not-yet-initialised interface is acceptable; anything else is judged by the probes above
-			_ = promErr
+		if promErr != nil && (strings.Contains(promErr.Error(), "collected before") || strings.Contains(promErr.Error(), "duplicate")) {
+			// (a gather error for a not-yet-initialised interface or a failing source is the acceptable
+			// alternative and is judged by the probes above; a label collision is not)
+			return verifkit.Violf("C17/scrape-fails-on-duplicate-labels", "a real registry cannot be gathered: %v\n%s", promErr, text)
 		}
 		_ = ifaces
 		return nil
